@@ -860,6 +860,8 @@ class Bisim:
         self.nodes_compared = 0
         self.admissible_zero_init = set()
         self.admissible_used = []
+        self.fout = self.cout = ()
+        self.suffix_summaries = 0
         self.seed_names()
 
     def seed_names(self):
@@ -954,6 +956,12 @@ class Bisim:
         k = f.kind
         if k == 'assign':
             if not (self.eq_try(f.stmt[2], c.stmt[2])):
+                if len(ir.fmt(f.stmt[2])) > 120:
+                    snap = (dict(self.f2c), dict(self.c2f))
+                    ds = min_diff(self, f.stmt[2], c.stmt[2])
+                    self.f2c, self.c2f = snap
+                    return 'assigned values differ in `%s =` (reference line %s, port line %s): %s' % (
+                        ir.fmt(f.stmt[1]), f.line, c.line, '; '.join(ds[:4]))
                 return 'assigned values differ: reference %s vs port %s' % (desc(f), desc(c))
             if not self.eq_try(f.stmt[1], c.stmt[1]):
                 return 'assignment targets differ: reference %s vs port %s' % (desc(f), desc(c))
@@ -1038,7 +1046,7 @@ class Bisim:
         if c.kind == 'assign' and c.stmt[1][0] == 'var' and c.stmt[2] == ('call', 'quiet_nan'):
             return True          # NaN poison of a local the reference leaves unassigned
         return c.kind == 'assign' and c.stmt[1][0] == 'var' and c.stmt[2] == ('num', Fraction(0)) \
-            and (d, c.line) in self.admissible_zero_init
+            and ((d or '').split('~')[0], c.line) in self.admissible_zero_init
 
     def run(self):
         pf, pc = self.gf.preds(), self.gc.preds()
@@ -1110,6 +1118,16 @@ class Bisim:
                         continue
             m = self.node_eq(f, c)
             if m:
+                # the two suffixes may still compute the same thing written differently: if both are loop-free,
+                # compare their symbolic path summaries (events, outputs) under the pairing found so far
+                snap = (dict(self.f2c), dict(self.c2f))
+                ps = compare_path_summaries(self.gf, self.gc, [], [], self.fout, self.cout, fi, ci, self)
+                if ps is not None and not ps[0]:
+                    self.suffix_summaries += 1
+                    self.nodes_compared += ps[1]
+                    continue
+                self.f2c, self.c2f = snap
+            if m:
                 self.mism.append(Mismatch('node', f, c, m))
                 if f.kind != c.kind or len(self.mism) > 25:
                     continue
@@ -1144,19 +1162,35 @@ def rewrite_cfg(g, side):
 
 
 # ------------------------------------------------------------------ symbolic path summaries (rule 9)
-def path_summaries(g, outputs=(), lang=None, limit=3000):
+REC_FIELDS = ('$new.code', '$new.p1', '$new.p2', '$new.p3', '$new.time')
+
+
+def path_summaries(g, outputs=(), lang=None, limit=3000, start=None):
     """for a loop-free CFG: per exit path, after forward substitution of every assignment,
        (conditions, statement-level calls, final values of written outputs, returned value);
        deviates are numbered in consumption order.  None if the CFG has a cycle (not applicable)."""
-    order = g.rpo()
-    pos = {n: i for i, n in enumerate(order)}
-    for n in g.nodes:
-        if n.id in pos:
-            for s_ in n.succ:
-                if pos.get(s_, 0) <= pos[n.id]:
-                    return None
-            if n.kind == 'eval':
+    start_id = g.entry.id if start is None else start
+    region = g.reachable(start_id)
+    # acyclic?  (DFS colouring restricted to the region)
+    color = {}
+    stack = [(start_id, iter(g.nodes[start_id].succ))]
+    color[start_id] = 1
+    while stack:
+        i, it = stack[-1]
+        adv = False
+        for s_ in it:
+            if color.get(s_) == 1:
                 return None
+            if s_ not in color:
+                color[s_] = 1
+                stack.append((s_, iter(g.nodes[s_].succ)))
+                adv = True
+                break
+        if not adv:
+            color[i] = 2
+            stack.pop()
+    if any(g.nodes[i].kind == 'eval' for i in region):
+        return None
     out = []
 
     def sub(e, env, cnt):
@@ -1192,6 +1226,16 @@ def path_summaries(g, outputs=(), lang=None, limit=3000):
             c = sub(n.stmt[1], env, cnt)
             walk(n.succ[0], env, conds + [c], calls, cnt, written)
             walk(n.succ[1], env, conds + [canon(('op', 'not', c))], calls, cnt, written)
+        elif n.kind == 'call' and n.stmt[1] in ('$newrec', '$commit'):
+            # event-record idiom: the reference opens a record, the port commits one
+            env = dict(env)
+            if n.stmt[1] == '$commit' or env.get('$open') == ('num', Fraction(1)):
+                calls = calls + [('call', 'emit') + tuple(env.get(k, ('var', k)) for k in REC_FIELDS)]
+            if n.stmt[1] == '$newrec':
+                env['$open'] = ('num', Fraction(1))
+                for k in REC_FIELDS:
+                    env.pop(k, None)
+            walk(n.succ[0], env, conds, calls, cnt, written)
         elif n.kind == 'call':
             cnt = [cnt[0]]
             args = tuple(sub(a, env, cnt) for a in n.stmt[2])
@@ -1204,11 +1248,13 @@ def path_summaries(g, outputs=(), lang=None, limit=3000):
             walk(n.succ[0], env, conds, calls, cnt, written)
         elif n.kind in ('return', 'throw'):
             cnt = [cnt[0]]
+            if env.get('$open') == ('num', Fraction(1)):
+                calls = calls + [('call', 'emit') + tuple(env.get(k, ('var', k)) for k in REC_FIELDS)]
             e = n.stmt[1] if n.kind == 'return' else ('var', '$throw')
             outs = []
             for o in sorted(written, key=repr):
                 name = o if isinstance(o, str) else o[1]
-                if name in outputs and name != '$result':
+                if name in outputs and name != '$result' and not name.startswith('$new.') and name != '$open':
                     tgt = ('var', o) if isinstance(o, str) else o
                     outs.append(('op', 'out', tgt, env[o]))
             out.append((tuple(conds), tuple(calls), tuple(outs), sub(e, env, cnt) if e is not None else None, n.line))
@@ -1217,7 +1263,7 @@ def path_summaries(g, outputs=(), lang=None, limit=3000):
         else:
             raise _NotApplicable()
     try:
-        walk(g.entry.id, {}, [], [], [0], frozenset())
+        walk(start_id, {}, [], [], [0], frozenset())
     except _NotApplicable:
         return None
     if len(out) > limit:
@@ -1338,9 +1384,11 @@ def min_diff(b, x, y, depth=0):
     return ['reference `%s` vs port `%s`' % (ir.fmt(x)[:300], ir.fmt(y)[:300])]
 
 
-def compare_path_summaries(gf, gc, fparams, cparams, fout=(), cout=()):
+def compare_path_summaries(gf, gc, fparams, cparams, fout=(), cout=(), fstart=None, cstart=None, bisim=None):
     rec = []
-    pf, pc = path_summaries(gf, fout, 'f'), path_summaries(drop_defensive_throws(gc, rec), cout, 'c')
+    if cstart is None:
+        gc = drop_defensive_throws(gc, rec)
+    pf, pc = path_summaries(gf, fout, 'f', start=fstart), path_summaries(gc, cout, 'c', start=cstart)
     if pf is None or pc is None:
         return None
 
@@ -1352,7 +1400,7 @@ def compare_path_summaries(gf, gc, fparams, cparams, fout=(), cout=()):
                 o.append((c,) + tuple(p[1:]))
         return o
     pf, pc = prune(pf), prune(pc)
-    b = Bisim(gf, gc, fparams, cparams)
+    b = bisim if bisim is not None else Bisim(gf, gc, fparams, cparams)
     mism = []
     left = list(pc)
     n = 0
